@@ -94,7 +94,7 @@ ExpRej(fams) == [rej |-> fams]
 \*   x = [anyof |-> <<x1,..>>] : o must match one of the plain alternatives
 \*   otherwise                 : o = x
 MatchPlain(x, o) == IF "rej" \in DOMAIN x
-                    THEN "exc" \in DOMAIN o /\ \E i \in DOMAIN x.rej : x.rej[i] = o.exc
+                    THEN "exc" \in DOMAIN o /\ \E i \in DOMAIN x.rej : (x.rej[i] = o.exc \/ x.rej[i] = "*")
                     ELSE x = o
 Matches(x, o) == IF "anyof" \in DOMAIN x
                  THEN \E i \in DOMAIN x.anyof : MatchPlain(x.anyof[i], o)
